@@ -19,7 +19,9 @@
 (*              del = `replace atomname null`                              *)
 (*      inters: Seq([kind, atoms, par, ver, edge]),                        *)
 (*      xedges: Seq([a, b, lt]),      the [ edges ] section                *)
-(*      nonedges: Seq([from, ord, sel]), patterns: Seq(Seq([a, sel]))]     *)
+(*      nonedges: Seq([from, ord, sel]), patterns: Seq(Seq([a, sel]))      *)
+(*      (, wide: attribute -> Seq(allowed values)   the link-wide lines    *)
+(*         written directly under [ link ], e.g. resname "A|C")]           *)
 (* An atom of the molecule is <<r, i>> (atom i of the block of residue r). *)
 (* Everything is a sequence / record so that the same operators evaluate   *)
 (* catalogue cases (MC_Links) and cases recorded from the real code (JSON).*)
@@ -47,12 +49,15 @@ CONSTANTS Cases,           \* set of cases explored by the model
           DevRepBeforePattern, \* deviation (independent seed2-C02-1): replace / removal is carried out before the pattern veto and not rolled back
           DevLastOfName,   \* deviation (independent seed4-C02-1): a link atom with one plain atom name is looked up in a name -> atom table that keeps only the LAST atom of a repeated name
           DevNoAtomResname,\* deviation (independent seed C02-2): the residue name is not compared when the atoms of a link are looked up
+          DevNonEdgeNoWide,\* deviation (independent seed6-C02-2): the partner atom of a [ non-edges ] entry is described without the link-wide attribute lines
+          DevNonEdgeNoResname, \* deviation (same blind spot): the residue name of the partner atom of a [ non-edges ] entry is not compared at all
           DevOrderedPairs, \* deviation (independent seed C10-2): joined residue pairs are collected and looked up as ORDERED pairs
           DevGateOnce,     \* deviation (independent seed2-C10-1): the gate skips molecules whose (always empty) graph name was already seen
           DevGateStopsAtIgnored, \* deviation (independent seed5-C10-2): the gate pass ends at the first ignored molecule instead of skipping it
           DevSkipSameItp,  \* deviation (independent seed5-C10-1): residue pairs with the same from_itp value are never examined
           DevGateBuildOnly,\* deviation (independent seed3-C10-2): the gate runs after the coordinate files and skips molecules without a residue to build
           DevMissingCache, \* deviation (independent seed3-C10-1): the candidate atoms of find_connecting_edges are remembered from the first evaluation
+          DevMissingBeforeExplicit, \* deviation (independent seed7-C10-2): the missing links are collected before the links given by atom number are applied
           DevDegree        \* deviation (C10): degree filter of find_connecting_edges compares the wrong way (m12)
 
 VARIABLES case, st
@@ -116,6 +121,18 @@ REdge(c, x, y) == \E j \in DOMAIN c.edges : {c.edges[j].a, c.edges[j].b} = {x, y
 RLab(c, x, y) == c.edges[CHOOSE j \in DOMAIN c.edges : {c.edges[j].a, c.edges[j].b} = {x, y}].lt
 NOrd(l) == Len(l.orders)
 AtomsOfOrd(l, oi) == {a \in DOMAIN l.atoms : l.atoms[a].oi = oi}
+\* link-wide attribute lines (`resname "A|C"` directly under [ link ]) describe EVERY atom the link mentions: the atoms of its interactions,
+\* of [ atoms ] and [ edges ], and the partner atom a [ non-edges ] entry describes; an attribute written on the atom itself takes precedence.
+\* ASel / NESel = the full description of link atom a / of the partner of non-edge q.  (Links projected from parsed force fields carry no
+\* `wide`: the parser has already resolved it.)
+HasWide(l) == "wide" \in DOMAIN l
+ASel(l, a) == IF HasWide(l) THEN Overlay(l.wide, l.atoms[a].sel) ELSE l.atoms[a].sel
+NESelW(l, q, nowide) == IF HasWide(l) /\ ~nowide THEN Overlay(l.wide, l.nonedges[q].sel) ELSE l.nonedges[q].sel
+NESel(l, q) == NESelW(l, q, FALSE)
+\* the same link with the link-wide lines written out on every atom and non-edge partner (law WideIsShorthand, MC_Links)
+Resolved(l) == IF ~HasWide(l) THEN l ELSE
+   [orders |-> l.orders, atoms |-> [a \in DOMAIN l.atoms |-> [l.atoms[a] EXCEPT !.sel = ASel(l, a)]], inters |-> l.inters, xedges |-> l.xedges,
+    nonedges |-> [q \in DOMAIN l.nonedges |-> [l.nonedges[q] EXCEPT !.sel = NESel(l, q)]], patterns |-> l.patterns]
 XPairs(l) == { {l.xedges[j].a, l.xedges[j].b} : j \in DOMAIN l.xedges }
 LinkEdges(l) == (UNION {EdgePairs(l.inters[q]) : q \in DOMAIN l.inters}) \cup XPairs(l)      \* 2-sets of link atom indices
 XLab(l, p) == IF p \in XPairs(l) THEN l.xedges[CHOOSE j \in DOMAIN l.xedges : {l.xedges[j].a, l.xedges[j].b} = p].lt ELSE ""
@@ -124,10 +141,10 @@ PEdge(l, i, j) == PairsBetween(l, i, j) # {}
 \* the label of a pattern edge is the linktype common to ALL atom edges between the two orders
 PLab(l, i, j) == LET labs == { XLab(l, p) : p \in PairsBetween(l, i, j) } IN IF Cardinality(labs) = 1 THEN CHOOSE x \in labs : TRUE ELSE ""
 \* a residue-level residue name exists only if all atoms of the order carry the same resname predicate
-HasCommonRn(l, oi) == /\ \A a \in AtomsOfOrd(l, oi) : "resname" \in DOMAIN l.atoms[a].sel
-                      /\ \A a, b \in AtomsOfOrd(l, oi) : l.atoms[a].sel.resname = l.atoms[b].sel.resname
-CommonRn(l, oi) == l.atoms[CHOOSE a \in AtomsOfOrd(l, oi) : TRUE].sel.resname
-LinkResnames(l) == UNION { IF "resname" \in DOMAIN l.atoms[a].sel THEN ToSet(l.atoms[a].sel.resname) ELSE {} : a \in DOMAIN l.atoms }
+HasCommonRn(l, oi) == /\ \A a \in AtomsOfOrd(l, oi) : "resname" \in DOMAIN ASel(l, a)
+                      /\ \A a, b \in AtomsOfOrd(l, oi) : ASel(l, a).resname = ASel(l, b).resname
+CommonRn(l, oi) == ASel(l, CHOOSE a \in AtomsOfOrd(l, oi) : TRUE).resname
+LinkResnames(l) == UNION { IF "resname" \in DOMAIN ASel(l, a) THEN ToSet(ASel(l, a).resname) ELSE {} : a \in DOMAIN l.atoms }
 Maps(c, l) == [1..NOrd(l) -> Rs(c)]
 \* links none of whose atoms names a residue of the molecule are skipped before any matching
 Prefilter(c, l) == \E r \in Rs(c) : c.rattr[r].resname \in LinkResnames(l)
@@ -163,7 +180,7 @@ ResMatchesAgree(c) == \A q \in DOMAIN c.links : ResMatches(c, c.links[q], FALSE,
 (* ------------------------------------------------------------------ *)
 \* atoms of residue phi[order of a] whose attributes satisfy everything link atom a asks for (order, charge group, replace, resid aside)
 SelSetW(c, l, phi, a, f13) == LET r == phi[l.atoms[a].oi] IN
-   { i \in 1..NAt(c, r) : SelOK(IF f13 /\ r = FirstRes(c) THEN MolAttr0(c, <<r, i>>) ELSE FragAttr(c, <<r, i>>), l.atoms[a].sel) }
+   { i \in 1..NAt(c, r) : SelOK(IF f13 /\ r = FirstRes(c) THEN MolAttr0(c, <<r, i>>) ELSE FragAttr(c, <<r, i>>), ASel(l, a)) }
 SelSet(c, l, phi, a) == SelSetW(c, l, phi, a, FALSE)
 \* "every link atom identifies exactly one atom"
 AtomsOK(c, l, phi) == \A a \in DOMAIN l.atoms : Cardinality(SelSet(c, l, phi, a)) = 1
@@ -173,9 +190,14 @@ ImgVec(c, l, phi) == TLCEval([a \in DOMAIN l.atoms |-> LET S == SelSet(c, l, phi
                                  IF Cardinality(S) = 1 THEN <<phi[l.atoms[a].oi], CHOOSE i \in S : TRUE>> ELSE NoAtom])
 
 \* a view = what the vetoes are evaluated on: atom-level edges and molecule node attributes at that moment
-NonEdgeOK(c, l, V, iv) == \A q \in DOMAIN l.nonedges :
-   LET ne == l.nonedges[q]  f == iv[ne.from] IN
-     ~ \E nb \in Atoms(c) : {f, nb} \in V.edges /\ c.resid[nb[1]] = c.resid[f[1]] + ne.ord /\ SelOK(V.attr[nb], ne.sel)
+\* a [ non-edges ] entry vetoes the link iff the atom `from` has an edge to an atom of the residue `ord` further that fits the FULL
+\* description of the partner (its own attributes and the link-wide ones).  nowide / norn: the deviations DevNonEdgeNoWide / DevNonEdgeNoResname
+NonEdgeOKW(c, l, V, iv, nowide, norn) == \A q \in DOMAIN l.nonedges :
+   LET ne == l.nonedges[q]  f == iv[ne.from]
+       full == NESelW(l, q, nowide)
+       sel == IF norn /\ "resname" \in DOMAIN full THEN [k \in (DOMAIN full) \ {"resname"} |-> full[k]] ELSE full IN
+     ~ \E nb \in Atoms(c) : {f, nb} \in V.edges /\ c.resid[nb[1]] = c.resid[f[1]] + ne.ord /\ SelOK(V.attr[nb], sel)
+NonEdgeOK(c, l, V, iv) == NonEdgeOKW(c, l, V, iv, FALSE, FALSE)
 PatternOK(c, l, V, iv) == Len(l.patterns) = 0 \/
    \E q \in DOMAIN l.patterns : \A j \in DOMAIN l.patterns[q] : SelOK(V.attr[iv[l.patterns[q][j].a]], l.patterns[q][j].sel)
 
@@ -239,7 +261,17 @@ Final(c, V, ints, rm, calls) ==
    attr |-> [at \in Atoms(c) \ rm |-> V.attr[at]],
    removed |-> rm,
    calls |-> calls]
-PFinalE(c, e) == Final(c, e.V, PInts(c, e.app), PRemoved(c, e.app), e.calls)
+\* links given by atom number ([ link ] with [ molmeta ] by_atom_id true): c.xlinks (optional) = Seq([kind, nums, par, ver]).  Number k is the
+\* k-th atom of the molecule (node key k - 1, removed atoms keep their number).  They are applied regardless of any check AFTER all other
+\* links, wherever they stand in the force field: the interaction is added and consecutive atoms become joined by an edge.
+HasX(c) == "xlinks" \in DOMAIN c /\ Len(c.xlinks) > 0
+AtomOfNum(c, k) == CHOOSE at \in Atoms(c) : NodeKey(c, at) = k - 1
+XInts(c) == IF "xlinks" \in DOMAIN c
+            THEN { [kind |-> c.xlinks[q].kind, atoms |-> [j \in DOMAIN c.xlinks[q].nums |-> AtomOfNum(c, c.xlinks[q].nums[j])], ver |-> c.xlinks[q].ver, par |-> c.xlinks[q].par] : q \in DOMAIN c.xlinks }
+            ELSE {}
+XEdges(c) == UNION { { {x.atoms[j], x.atoms[j + 1]} : j \in 1..(Len(x.atoms) - 1) } : x \in XInts(c) }
+WithExplicit(c, f) == IF HasX(c) THEN [f EXCEPT !.ints = @ \cup XInts(c), !.edges = @ \cup XEdges(c)] ELSE f
+PFinalE(c, e) == WithExplicit(c, Final(c, e.V, PInts(c, e.app), PRemoved(c, e.app), e.calls))
 PFinal(c) == PFinalE(c, PEnd(c))
 
 \* no two definitions of the same key at the same definition index with different parameters, no two different replacements
@@ -249,11 +281,18 @@ NoTiesE(c, e) == LET all == AllLinkInts(c, e.app)
                     /\ \A x \in e.app : \A a, b \in DOMAIN x.iv : a # b => x.iv[a] # x.iv[b]
                     /\ \A x, y \in e.app : x.li = y.li =>
                           \A rp \in RepImg(c.links[x.li], x.iv), rq \in RepImg(c.links[y.li], y.iv) : rp[1] = rq[1] => rp[2] = rq[2]
+                    \* a link given by atom number names atoms that are still there and does not redefine an interaction on the same atoms
+                    /\ \A x \in XInts(c) : /\ ~Touches(x, PRemoved(c, e.app))
+                                           /\ \A y \in BlockInts(c) \cup all \cup XInts(c) : (y.kind = x.kind /\ y.atoms = x.atoms) => (y = x)
 NoTies(c) == NoTiesE(c, PEnd(c))
 Stable(c) == PEnd(c).stable
 \* stated domain: every link names a residue on at least one of its atoms (a link without any residue name is skipped before matching;
 \* with one, Applies implies Prefilter: that atom can only select an atom of a residue it names)
-InDomain(c) == \A k \in DOMAIN c.links : \E a \in DOMAIN c.links[k].atoms : "resname" \in DOMAIN c.links[k].atoms[a].sel
+InDomain(c) == /\ \A k \in DOMAIN c.links : \E a \in DOMAIN c.links[k].atoms : "resname" \in DOMAIN ASel(c.links[k], a)
+               \* a link given by atom number names atoms of the molecule, consecutive ones different
+               /\ "xlinks" \in DOMAIN c => \A q \in DOMAIN c.xlinks : LET nm == c.xlinks[q].nums IN
+                     /\ \A j \in DOMAIN nm : nm[j] \in 1..Cardinality(Atoms(c))
+                     /\ \A j \in 1..(Len(nm) - 1) : nm[j] # nm[j + 1]
 
 (* ---- C10, P-layer: residue edges without any atom-level edge between the two residues *)
 AtomEdgeBetween(E, x, y) == \E e \in E : {at[1] : at \in e} = {x, y}
@@ -349,10 +388,10 @@ Windows(b, L) ==
 GMMatches(c, l) == ResMatches(c, l, DevMono, DevNoLinktype)
 DropKey(f, k) == [x \in (DOMAIN f) \ {k} |-> f[x]]
 LastOfName(c, r, nm) == { i \in 1..NAt(c, r) : MolAttr0(c, <<r, i>>).atomname = nm /\ \A j \in (i + 1)..NAt(c, r) : MolAttr0(c, <<r, j>>).atomname # nm }
-ISelSet(c, l, phi, a) == IF DevLastOfName /\ "atomname" \in DOMAIN l.atoms[a].sel /\ Len(l.atoms[a].sel.atomname) = 1
-   THEN LET r == phi[l.atoms[a].oi] IN { i \in LastOfName(c, r, l.atoms[a].sel.atomname[1]) : SelOK(FragAttr(c, <<r, i>>), l.atoms[a].sel) }
+ISelSet(c, l, phi, a) == IF DevLastOfName /\ "atomname" \in DOMAIN ASel(l, a) /\ Len(ASel(l, a).atomname) = 1
+   THEN LET r == phi[l.atoms[a].oi] IN { i \in LastOfName(c, r, ASel(l, a).atomname[1]) : SelOK(FragAttr(c, <<r, i>>), ASel(l, a)) }
    ELSE IF DevNoAtomResname
-   THEN LET r == phi[l.atoms[a].oi] IN { i \in 1..NAt(c, r) : SelOK(FragAttr(c, <<r, i>>), DropKey(l.atoms[a].sel, "resname")) }
+   THEN LET r == phi[l.atoms[a].oi] IN { i \in 1..NAt(c, r) : SelOK(FragAttr(c, <<r, i>>), DropKey(ASel(l, a), "resname")) }
    ELSE SelSetW(c, l, phi, a, DevF13)
 IMin(S) == CHOOSE i \in S : \A j \in S : i <= j
 \* match_link_and_residue_atoms: exactly one atom per link atom (with DevAmbig: the first of several)
@@ -361,7 +400,7 @@ IImgVec(c, l, phi) == TLCEval([a \in DOMAIN l.atoms |-> LET S == ISelSet(c, l, p
 IOutcome(c, l, phi, iv, V) ==
    IF ~(DevNoOrder \/ OrderOK(c, l, phi)) THEN "order"
    ELSE IF \E a \in DOMAIN iv : iv[a] = NoAtom THEN "atoms"
-   ELSE IF ~(DevNoNonEdge \/ NonEdgeOK(c, l, V, iv)) THEN "nonedge"
+   ELSE IF ~(DevNoNonEdge \/ NonEdgeOKW(c, l, V, iv, DevNonEdgeNoWide, DevNonEdgeNoResname)) THEN "nonedge"
    ELSE IF ~(DevNoPattern \/ PatternOK(c, l, V, iv)) THEN "pattern"
    ELSE "applied"
 \* self.applied_links[inter_type][(*atoms, version)] = ...
@@ -397,7 +436,7 @@ EndLink == /\ st.pc = "match" /\ st.todo = {}
            /\ UNCHANGED case
 \* remove scheduled nodes, write the dictionary back skipping interactions that touch them
 WriteBack == /\ st.pc = "write"
-             /\ st' = [st EXCEPT !.pc = "missing",
+             /\ st' = [st EXCEPT !.pc = IF HasX(case) THEN "explicit" ELSE "missing",
                                  !.final = Final(case, st.V, { x \in st.dict : DevKeepRemoved \/ ~Dropped(case, x, st.rm, DevVerKey) }, st.rm, st.calls)]
              /\ UNCHANGED case
 \* find_missing_edges: candidate atoms are those whose degree in their fragment graph differs from their degree in the molecule;
@@ -418,6 +457,12 @@ IMissingC(c, E, rm, Ec, rmc) ==
               /\ ~(DevSkipSameItp /\ "from_itp" \in DOMAIN c.rattr[c.edges[q].a] /\ "from_itp" \in DOMAIN c.rattr[c.edges[q].b]
                                   /\ c.rattr[c.edges[q].a].from_itp = c.rattr[c.edges[q].b].from_itp)} }
 IMissing(c, E, rm) == IMissingC(c, E, rm, E, rm)
+\* the last loop of run_molecule: links given by atom number are applied regardless of any check, after everything else was written;
+\* the molecule is finished only now.  DevMissingBeforeExplicit: the missing links are collected in front of this loop and reported later
+ApplyExplicit == /\ st.pc = "explicit"
+                 /\ st' = [st EXCEPT !.pc = "missing", !.final = WithExplicit(case, @),
+                                     !.missing = IF DevMissingBeforeExplicit THEN IMissing(case, st.final.edges, st.final.removed) ELSE @]
+                 /\ UNCHANGED case
 \* the missing links may be asked for at any time: here once on the freshly mapped molecule (before any link) ...
 FindMissing0 == /\ st.pc = "missing0"
                 /\ st' = [st EXCEPT !.pc = IF Len(case.links) = 0 THEN "write" ELSE "begin", !.missing0 = IMissing(case, st.V.edges, {})]
@@ -425,12 +470,13 @@ FindMissing0 == /\ st.pc = "missing0"
 FindMissing == /\ st.pc = "missing"
                \* ... and once after link application, on the same residue graph: the answer is a function of the current molecule only
                /\ st' = [st EXCEPT !.pc = "done",
-                                   !.missing = IF DevMissingCache THEN IMissingC(case, st.final.edges, st.final.removed, V0(case).edges, {})
+                                   !.missing = IF DevMissingBeforeExplicit /\ HasX(case) THEN @ ELSE
+                                               IF DevMissingCache THEN IMissingC(case, st.final.edges, st.final.removed, V0(case).edges, {})
                                                ELSE IMissing(case, st.final.edges, st.final.removed)]
                /\ UNCHANGED case
 \* the order in which the matches of one link are tried is not under the code's control (GraphMatcher iteration order)
 TryAny == \E phi \in st.todo : TryMatch(phi)
-Next == FindMissing0 \/ BeginLink \/ TryAny \/ EndLink \/ WriteBack \/ FindMissing
+Next == FindMissing0 \/ BeginLink \/ TryAny \/ EndLink \/ WriteBack \/ ApplyExplicit \/ FindMissing
 Spec == Init /\ [][Next]_vars
 
 (* ---- I-layer |= P-layer *)
